@@ -50,19 +50,20 @@ def closed (t : Table) (X : List String) : Bool :=
 
 /-- every access of a function in `X` is under the lock or benign -/
 def clean (benign : List (String × String)) (t : Table) (X : List String) : Bool :=
-  t.all fun f => !X.contains f.name || f.accesses.all fun a => a.2 || benign.contains (f.name, a.1)
+  t.all fun f => !X.contains f.name || f.accesses.all fun a => a.2 || benign.contains (f.name, a.1) || benign.contains ("*", a.1)
 
 def disciplined (benign : List (String × String)) (t : Table) : Bool :=
   closed t (exposed t) && clean benign t (exposed t)
 
 /-- the accesses outside the lock that are deliberate, each with the reason the code gives:
-* `__init__` looks up database 0 and the version before the connection exists for anybody else (database 0 is created
-  with the server, fix F13);
+* `__init__` looks up database 0 before the connection exists for anybody else (database 0 is created with the server, fix
+  F13); the emulated `version` is set once by the server's constructor and never written again, so reading it anywhere is
+  benign (`"*"` = any function);
 * `sendall` reads the `connected` flag (a plain attribute read; the outage emulation is not synchronised by design);
 * `close` appends to `closed_sockets` ("might be called from `__del__` at any time, hence we can't safely take the
   server lock; we rely on list.append being atomic") -/
 def benign : List (String × String) :=
-  [("__init__", "S:dbs"), ("__init__", "S:version"), ("sendall", "S:connected"), ("close", "S:closed_sockets")]
+  [("__init__", "S:dbs"), ("*", "S:version"), ("sendall", "S:connected"), ("close", "S:closed_sockets")]
 
 /-- the table is not trivial: the dispatcher calls the runner under the lock only, refreshes the clock and reaps closed
 sockets under the lock, has no access outside it; the runner reaches at least a hundred command bodies; no command body is a
